@@ -22,7 +22,12 @@ package writer
 //@   ensures res.SeqNum == 0 || (old(s.cycle.counter) != 0 && old(s.cycle.res.SeqNum) != res.SeqNum) ==> s.cycle.counter == old(s.cycle.counter) && __eq(s.cycle.res, old(s.cycle.res))
 //@   ensures res.SeqNum != 0 && (old(s.cycle.counter) == 0 || old(s.cycle.res.SeqNum) == res.SeqNum) && !fulfilled ==> s.cycle.counter == old(s.cycle.counter) + 1
 //@   ensures res.SeqNum != 0 && (old(s.cycle.counter) == 0 || old(s.cycle.res.SeqNum) == res.SeqNum) ==> s.cycle.res.SeqNum == res.SeqNum
-//@   ensures __eq(out, res)
+//@   # what is acknowledged is the response merged over the cycle: unauthorized as soon as one node
+//@   # refused, and (for commits) the latest end any node reported
+//@   ensures fulfilled ==> __eq(out, s.cycle.res)
+//@   ensures res.SeqNum != 0 && old(s.cycle.counter) == 0 ==> s.cycle.res.Authorized == res.Authorized && s.cycle.res.End == res.End
+//@   ensures res.SeqNum != 0 && old(s.cycle.counter) != 0 && old(s.cycle.res.SeqNum) == res.SeqNum ==> s.cycle.res.Authorized == (old(s.cycle.res.Authorized) && res.Authorized)
+//@   ensures res.SeqNum != 0 && old(s.cycle.counter) != 0 && old(s.cycle.res.SeqNum) == res.SeqNum ==> s.cycle.res.End == __ite(res.Command == CommandCommit && res.End > old(s.cycle.res.End), res.End, old(s.cycle.res.End))
 //@   modifies s
 
 //@ import address "github.com/synnaxlabs/x/address"
